@@ -40,6 +40,14 @@ func (i *BigInt) IsSmallInt() bool {
 	return i.ToGoBigInt().IsInt64()
 }
 
+// Returns i as an Elk Int value: a SmallInt when it fits, otherwise a BigInt reference.
+func (i *BigInt) Normalise() Value {
+	if i.IsSmallInt() {
+		return i.ToSmallInt().ToValue()
+	}
+	return Ref(i)
+}
+
 // Reports whether i is zero.
 func (i *BigInt) IsZero() bool {
 	return len(i.ToGoBigInt().Bits()) == 0
